@@ -433,6 +433,18 @@ pub fn run(a: &Args, acc: &mut Acc) {
                 if mask & 8 != 0 && !corrupted && after.get("monitors") != Some(&mons2) {
                     report(acc, "UpdateConfig did not store the supplied monitors".into(), case.clone());
                 }
+                if mask & 2 != 0 && !corrupted {
+                    let ap = after.get("protocol_chain_config").cloned().unwrap_or(Value::Null);
+                    if vs(&ap, "ibc_channel_id") != vs(&p2, "ibc_channel_id") || vu128(&ap, "minimum_liquid_stake_amount") != vu128(&p2, "minimum_liquid_stake_amount") || ap.get("oracle_address") != p2.get("oracle_address") || vs(&ap, "ibc_token_denom") != vs(&p2, "ibc_token_denom") || vs(&ap, "account_address_prefix") != vs(&p2, "account_address_prefix") {
+                        report(acc, format!("UpdateConfig (sections {mask:05b}) did not store the supplied protocol section: {ap} vs {p2}"), case.clone());
+                    }
+                }
+                if mask & 4 != 0 && !corrupted {
+                    let af = after.get("protocol_fee_config").cloned().unwrap_or(Value::Null);
+                    if vu128(&af, "dao_treasury_fee") != vu128(&f2, "dao_treasury_fee") || af.get("treasury_address") != f2.get("treasury_address") {
+                        report(acc, format!("UpdateConfig (sections {mask:05b}) did not store the supplied fee section: {af} vs {f2}"), case.clone());
+                    }
+                }
                 if mask & 1 != 0 && !corrupted {
                     let an = after.get("native_chain_config").cloned().unwrap_or(Value::Null);
                     if vs(&an, "staker_address") != vs(&n2, "staker_address") || vu64(&an, "unbonding_period") != vu64(&n2, "unbonding_period") || an.get("validators") != n2.get("validators") {
